@@ -11,6 +11,7 @@ package main
 import (
 	"bytes"
 	"fmt"
+	"iter"
 	"math/rand/v2"
 	"sync"
 
@@ -57,43 +58,126 @@ func runParallel(k *K, goroutines int, work func(g int, r *rand.Rand) string) {
 	k.Count("parallel_goroutines", int64(goroutines))
 }
 
-// codecParallel: independent write -> read round trips of one format.
-func codecParallel(format string) func(c *Ctx) {
+// codecParallel: histories and schedules for the readers of the given formats.
+// Each case runs, in ONE process and in this order:
+//  1. a "wear" phase: iterations that end in every unusual way — a malformed
+//     text read to its error item, a failing reader, a consumer that stops
+//     after the first item, one iterator value ranged twice, File on a
+//     missing path (what they return is not judged here; other units do that);
+//  2. a lockstep phase: three readers over three different well-formed texts
+//     are open at the same time and advanced in turn (iter.Pull2), each must
+//     deliver exactly its own records;
+//  3. a parallel phase: eight goroutines do independent write -> read round
+//     trips at the same time (-race build: any race report is a violation).
+// Whatever an abnormal end leaves behind in pools, caches or package-level
+// state must not leak into readers that are opened later.
+func codecParallel(formats ...string) func(c *Ctx) {
 	return func(c *Ctx) {
-		cd := codecByName(format)
 		n := c.N(6, 60)
-		for i := 0; i < n; i++ {
-			c.Case(int64(i), func(k *K) {
-				k.Input("format", format)
-				runParallel(k, 8, func(g int, r *rand.Rand) string {
-					for it := 0; it < 40; it++ {
-						var text bytes.Buffer
-						var want []item
-						field := r.IntN(textFieldCount[format])
-						val := string(randBytesExcl(r, r.IntN(30), samTextExcl))
-						if format == "sam" && len(val) > 0 && val[0] == '@' || format == "bed" && len(val) > 0 && val[0] == '#' {
-							val = "x" + val
-						}
-						if format == "fasta" && field == 1 {
-							val = string(randSeq(r, []byte("ACGTN"), r.IntN(300)))
-						}
-						for j := 0; j < 1+r.IntN(4); j++ {
-							rec, ok, skip := fieldRecord(r, format, field, val, j, &text)
-							if ok && !skip {
-								want = append(want, rec)
+		idx := int64(0)
+		for _, format := range formats {
+			cd := codecByName(format)
+			gen := format
+			if gen == "samh" {
+				gen = "sam"
+			}
+			for i := 0; i < n; i++ {
+				c.Case(idx, func(k *K) {
+					k.Input("format", format)
+					r := k.Rand()
+					// 1. wear
+					for w := 0; w < 6; w++ {
+						x := nearValid(r, gen)
+						catch(func() { collect(cd.seq(bytes.NewReader(x)), len(x)+8) })
+						catch(func() {
+							collect(cd.seq(&faultReader{data: x, k: r.IntN(len(x) + 1), forever: w%2 == 0, budget: len(x) + 10000, err: faultErrors[w%len(faultErrors)]}), 2*len(x)+16)
+						})
+						wf := plainWellFormed(r, gen)
+						catch(func() {
+							for range cd.seq(bytes.NewReader(wf)) {
+								break
 							}
+						})
+						catch(func() {
+							one := cd.seq(bytes.NewReader(wf))
+							collect(one, len(wf)+8)
+							collect(one, len(wf)+8)
+						})
+						catch(func() { collect(cd.file("/nonexistent/dir/x"+cd.ext), 4) })
+					}
+					k.Count("wear_iterations", 6*5)
+					// 2. lockstep
+					type stream struct {
+						want []item
+						next func() (string, error, bool)
+						stop func()
+						got  []item
+					}
+					var streams []*stream
+					for s := 0; s < 3; s++ {
+						x := plainWellFormed(r, gen)
+						for len(x) < 300 {
+							x = append(x, plainWellFormed(r, gen)...)
 						}
-						got, over := collect(cd.seq(bytes.NewReader(text.Bytes())), len(want)+3)
-						if over || !sameTrace(got, want) {
-							return fmt.Sprintf("%s round trip %d decodes differently:\n got  %s\n want %s", format, it, traceString(got), traceString(want))
+						want, _ := collect(cd.seq(bytes.NewReader(x)), len(x)+8)
+						next, stop := iter.Pull2(cd.seq(bytes.NewReader(x)))
+						streams = append(streams, &stream{want: want, next: next, stop: stop})
+					}
+					for live := len(streams); live > 0; {
+						live = 0
+						for _, st := range streams {
+							if st.next == nil {
+								continue
+							}
+							key, err, ok := st.next()
+							if !ok || len(st.got) > len(st.want)+2 {
+								st.stop()
+								st.next = nil
+								continue
+							}
+							st.got = append(st.got, item{Key: key, Err: err != nil})
+							live++
 						}
 					}
-					return ""
+					for si, st := range streams {
+						if !sameTrace(st.got, st.want) {
+							k.Failf("lockstep", "%s: reader %d of three that were open at the same time and advanced in turn delivered\n got  %s\n want %s (what it delivers alone)", format, si, traceString(st.got), traceString(st.want))
+							return
+						}
+					}
+					k.Count("lockstep_streams", 3)
+					// 3. parallel
+					runParallel(k, 8, func(g int, r *rand.Rand) string {
+						for it := 0; it < 40; it++ {
+							var text bytes.Buffer
+							var want []item
+							field := r.IntN(textFieldCount[gen])
+							val := string(randBytesExcl(r, r.IntN(30), samTextExcl))
+							if gen == "sam" && len(val) > 0 && val[0] == '@' || gen == "bed" && len(val) > 0 && val[0] == '#' {
+								val = "x" + val
+							}
+							if gen == "fasta" && field == 1 {
+								val = string(randSeq(r, []byte("ACGTN"), r.IntN(300)))
+							}
+							for j := 0; j < 1+r.IntN(4); j++ {
+								rec, ok, skip := fieldRecord(r, gen, field, val, j, &text)
+								if ok && !skip {
+									want = append(want, rec)
+								}
+							}
+							got, over := collect(cd.seq(bytes.NewReader(text.Bytes())), len(want)+3)
+							if over || !sameTrace(got, want) {
+								return fmt.Sprintf("%s round trip %d decodes differently:\n got  %s\n want %s", format, it, traceString(got), traceString(want))
+							}
+						}
+						return ""
+					})
+					k.Count("parallel_roundtrips", 8*40)
+					k.Evals(8*40 - 1)
+					k.Nontrivial([]byte(format), []byte{byte(i)})
 				})
-				k.Count("parallel_roundtrips", 8*40)
-				k.Evals(8*40 - 1)
-				k.Nontrivial([]byte(format), []byte{byte(i)})
-			})
+				idx++
+			}
 		}
 	}
 }
